@@ -79,7 +79,7 @@ class C05(Property):
     families = []
     needs_bins = True
     rule = ("generated instance files (both formats, layout variation as in C13) x the 21 problems (random case) x every argument x CLI options (reader, encoding, certificate flag, logging level off) "
-            "on `crustabri solve` and on the ICCMA'23 wrapper; stdout must be exactly the status line and/or one witness line, exit status 0, and the answer is judged by the Lean oracle (witness validated "
+            "on `crustabri solve` and on the ICCMA'23 wrapper (8% of the runs with logging on: lines prefixed `![` are log lines, the rest must be exactly the answer), the `authors` / help invocations; stdout must be exactly the status line and/or one witness line, exit status 0, and the answer is judged by the Lean oracle (witness validated "
             "against the semantics, not against a particular extension); malformed invocations (unreadable or ill-formed file, unknown problem, missing -a, unknown argument, unknown reader/encoding/level, "
             "duplicate and unknown options) must exit non-zero without any answer line; `--problems` / `problems` must list exactly the 21 problems; "
             "dispatch correspondence: on frameworks that separate the semantics (no stable extension, stage != semi-stable, preferred != complete, above the hybrid threshold, random ones, two of 14-36 arguments) every problem x "
@@ -135,7 +135,10 @@ class C05(Property):
                     cert = True
                     enc = None
                 else:
-                    cmd = [crust, "solve", "-f", path, "-p", shown, "--logging-level", "off"]
+                    loglevel = "off" if rng.random() < 0.92 else rng.choice(["info", "debug", "warn", "error"])
+                    cmd = [crust, "solve", "-f", path, "-p", shown, "--logging-level", loglevel]
+                    if t == "SE" and labels and rng.random() < 0.1:
+                        cmd += ["-a", rng.choice(labels)]      # superfluous for SE problems: ignored (a warning is logged)
                     if fmt == "apx":
                         cmd += ["-r", "apx"] if rng.random() < 0.5 else ["--reader=apx"]
                     elif rng.random() < 0.3:
@@ -194,6 +197,11 @@ class C05(Property):
         for e in (["-f", os.path.join(d, "nope.af"), "-p", "SE-GR"], ["-f", bad_file, "-p", "DC-CO", "-a", "1"], ["-f", good[0], "-p", "DC-CO"],
                   ["-f", good[0], "-p", "ZZ-GR"], ["-p", "SE-GR"], ["-f", good[0], "-p", "DC-ST", "-a", "99"]):
             jobs.append(("err", [wrap] + e, {}))
+        jobs.append(("info", [crust, "authors", "--logging-level", "off"], {"what": "authors"}))
+        jobs.append(("info", [wrap], {"what": "authors"}))
+        jobs.append(("info", [crust, "--help"], {"what": "help"}))
+        jobs.append(("info", [crust, "solve", "--help"], {"what": "help"}))
+        jobs.append(("info", [crust, "solve", "-h"], {"what": "help"}))
         jobs.append(("problems", [crust, "problems", "--logging-level", "off"], {}))
         jobs.append(("problems", [wrap, "--problems"], {}))
 
@@ -214,6 +222,18 @@ class C05(Property):
             lines = out.split("\n")
             if lines and lines[-1] == "":
                 lines = lines[:-1]
+            if kind == "ok" and "--logging-level" in cmd and cmd[cmd.index("--logging-level") + 1] != "off":
+                lines = [l for l in lines if not l.startswith("![")]     # log lines carry the prefix `![`
+            if kind == "info":
+                body = [l for l in lines if l.strip()]
+                if meta["what"] == "authors":
+                    ok = rc == 0 and len(body) == 2 and body[0].startswith("crustabri ") and not any(is_answer_line(l) for l in body)
+                else:   # help: everything goes through the logger
+                    ok = rc == 0 and body and all(l.startswith("![") for l in body)
+                if not ok:
+                    findings.append(Finding("input", None, "unexpected output or exit status %s for the %s invocation: %r" % (rc, meta["what"], out[:120]),
+                                            "cli · %s invocation" % meta["what"], {"cmd": shown}))
+                continue
             if kind == "err":
                 if rc == 0 or rc is None:
                     findings.append(Finding("input", None, "usage/input error but exit status %s: %s" % (rc, shown[-120:]), "cli · error with exit status 0", {"cmd": shown, "stdout": out[:200]}))
